@@ -629,7 +629,7 @@ func c02Judge(in c02Input, o c02Obs) (vs []c02Verdict, notes []string) {
 	ownNodes, _ := c02Denotes(in.Own)
 	wantKeys := c02ExpectedKeys(append(append([]GAttr{}, ownNodes...), argNodes...))
 	if !decoded {
-		notes = append(notes, "undecodable")
+		notes = append(notes, "undecodable/"+in.Mode)
 		plain := string(p)
 		if in.Mode == "color" {
 			plain, _ = sgrScan(p)
